@@ -182,7 +182,8 @@ def evaluate(case) -> Outcome:
             out.label("form-without-getter")
 
     # get_data / get_attr on single Sids
-    for u, (t, f, s) in list(existing.items())[:4]:
+    probe = list(existing.items())[:4] + [(u, e) for u, e in existing.items() if m.is_leaf_type(e[0]) and stored.get(u)][:3]
+    for u, (t, f, s) in probe:
         sid = Sid(u)
         okd, rec = call(lambda: GetFromPaths(cname).get_data(sid))
         out.evaluations += 1
@@ -191,12 +192,21 @@ def evaluate(case) -> Outcome:
             continue
         if dict(rec) != expected_record(sid, None, "str"):
             out.add("C16/get_data/differs", f"get_data({u!r}) = {dict(rec)}, expected {expected_record(sid, None, 'str')}")
-        for k in KEYS[:2]:
+        for k in (KEYS[:2] + [kk for kk in stored.get(u, {}) if kk not in KEYS[:2]][:1]):
             oka, v = call(lambda: GetFromPaths(cname).get_attr(sid, k))
             if not oka:
                 out.add(f"C16/get_attr/raises/{exc_sig(v)}", f"get_attr({u!r}, {k!r}) raised {v!r}")
             elif v != stored.get(u, {}).get(k):
                 out.add("C16/get_attr/differs", f"get_attr({u!r}, {k!r}) = {v!r}, stored {stored.get(u, {}).get(k)!r}")
+            # get_attr is one value of get_data's record - also for a Sid that shares the sidecar of a sibling extension
+            if m.is_leaf_type(t):
+                lits = [l for l in m.specs[(t, m.keys(t)[-1])].literals if l != f[m.keys(t)[-1]] and l not in m.extension_alias and l not in ("*", ">")]
+                if lits:
+                    sib = Sid(t + ":" + m.render(t, dict(f, **{m.keys(t)[-1]: lits[0]})))
+                    okd2, rec2 = call(lambda: GetFromPaths(cname).get_data(sib))
+                    oka2, va = call(lambda: GetFromPaths(cname).get_attr(sib, k))
+                    if okd2 and oka2 and va != dict(rec2).get(k):
+                        out.add("C16/get_attr/differs-from-get_data", f"get_attr({sib.uri!r}, {k!r}) = {va!r}, get_data gives {dict(rec2)}")
             if not is_default:
                 continue
             okb, v2 = call(lambda: sid.get_attr(k))
